@@ -88,7 +88,11 @@ class Acc:
         if klass is not None:
             for k in klass if isinstance(klass, (list, tuple, set)) else [klass]:
                 self.hist[k] = self.hist.get(k, 0) + 1
-        if sample is not None and len(self.samples) < self.MAX_SAMPLES and nontrivial:
+        if len(self.samples) < self.MAX_SAMPLES and nontrivial:
+            if sample is None:
+                # default: the case identity itself (clipped)
+                txt = case_key if isinstance(case_key, str) else json.dumps(case_key, default=str)
+                sample = txt if len(txt) <= 1500 else txt[:1500] + "..."
             self.samples.append(sample)
 
     def count(self, klass, n=1):
